@@ -296,39 +296,41 @@ func validatePlacementIndex(ctx, cID, inx)
   ensures [C14] inx == 0 || cnt(store, "u" ++ cID ++ byte(inx - 1)) > 0
 
 // Signature soundness. For vector v: the members are the values under n<cid><v> (committed roster), REP_v is the v-th
-// value under r<cid>. vld(.., v, k): the k-th signature of sigs[v] verifies msg against SOME member of vector v
-// (definition by the two axioms below); nv(.., v, k): number of such signatures among the first k of sigs[v]
-// (definition by recursion on k).
+// value under r<cid>. Acceptance needs, for every committed vector v, a list of REP_v pairwise different keys, each
+// the key of a member of vector v and each verifying msg against one of the signatures sigs[v]: signatures of
+// non-members, of other messages, of other vectors' members and further signatures of a counted member never count.
 pure mpre(cid Bytes, v Int) Bytes = "n" ++ cid ++ byte(v)
 pure member(s Store, cid Bytes, v Int, t Int) Bytes = s.get(skey(s, mpre(cid, v), t))
 pure rep(s Store, cid Bytes, v Int) Int = b2i(s.get(skey(s, "r" ++ cid, v)))
-ufun vld(s Store, cid Bytes, msg Bytes, sg L_NB, v Int, k Int) Bool
-ufun nv(s Store, cid Bytes, msg Bytes, sg L_NB, v Int, k Int) Int
-axiom vldOnlyIf: forall s Store, cid Bytes, msg Bytes, sg L_NB, v Int, k Int {vld(s, cid, msg, sg, v, k)} :: vld(s, cid, msg, sg, v, k)
-      ==> exists t Int :: 0 <= t && t < cnt(s, mpre(cid, v)) && ecdsa(msg, member(s, cid, v, t), sg[k])
-axiom vldIf: forall s Store, cid Bytes, msg Bytes, sg L_NB, v Int, k Int, t Int {vld(s, cid, msg, sg, v, k), member(s, cid, v, t)} ::
-      0 <= t && t < cnt(s, mpre(cid, v)) && ecdsa(msg, member(s, cid, v, t), sg[k]) ==> vld(s, cid, msg, sg, v, k)
-axiom nv0: forall s Store, cid Bytes, msg Bytes, sg L_NB, v Int {nv(s, cid, msg, sg, v, 0)} :: nv(s, cid, msg, sg, v, 0) == 0
-axiom nvS: forall s Store, cid Bytes, msg Bytes, sg L_NB, v Int, k Int {nv(s, cid, msg, sg, v, k)} :: k >= 0 ==>
-      nv(s, cid, msg, sg, v, k + 1) == nv(s, cid, msg, sg, v, k) + (vld(s, cid, msg, sg, v, k) ? 1 : 0)
+pure same(a Bytes, b Bytes) Bool = a == b
+pure signedBy(s Store, cid Bytes, msg Bytes, sg L_NB, v Int, key Bytes) Bool =
+     (exists t Int :: 0 <= t && t < cnt(s, mpre(cid, v)) && member(s, cid, v, t) == key)
+     && (exists k Int :: 0 <= k && k < len(sg) && ecdsa(msg, key, sg[k]))
+pure distinctSigners(s Store, cid Bytes, msg Bytes, sg L_NB, v Int, u L_NB) Bool =
+     (forall a Int {u[a]} :: 0 <= a && a < len(u) ==> signedBy(s, cid, msg, sg, v, u[a]))
+     && (forall a Int, b Int {u[a], u[b]} :: 0 <= a && a < b && b < len(u) ==> !same(u[a], u[b]))
+
+func hasKey(list, key) (r)
+  pure
+  ensures r ==> exists a Int :: 0 <= a && a < len(list) && same(list[a], key)
+  ensures !r ==> forall a Int {list[a]} :: 0 <= a && a < len(list) ==> !same(list[a], key)
+  loop 0
+    invariant forall a Int {list[a]} :: 0 <= a && a < $i ==> !same(list[a], key)
 
 func VerifyPlacementSignatures(cid, msg, sigs) (ok)
   pure
   // missing vectors never count: every committed vector must be covered by sigs
   ensures [C14] ok ==> len(cid) == 32 && cnt(store, "r" ++ cid) <= len(sigs)
-  // for every committed vector v some prefix of sigs[v] holds exactly REP_v signatures that verify msg against a
-  // member of vector v: signatures of non-members, of other messages and of other vectors' members never count
   ensures [C14] ok ==> forall v Int {sigs[v]} :: 0 <= v && v < cnt(store, "r" ++ cid) ==>
-        exists k Int :: 0 <= k && k <= len(sigs[v]) && nv(store, cid, msg, sigs[v], v, k) == rep(store, cid, v)
+        exists u L_NB {len(u)} :: len(u) == rep(store, cid, v) && distinctSigners(store, cid, msg, sigs[v], v, u)
   loop 0
     invariant i == $it.pos && i <= sigsLen && sigsLen == len(sigs) && len(cid) == 32
-    invariant forall v Int {sigs[v]} :: 0 <= v && v < i ==> exists k Int :: 0 <= k && k <= len(sigs[v]) && nv(store, cid, msg, sigs[v], v, k) == rep(store, cid, v)
+    invariant forall v Int {sigs[v]} :: 0 <= v && v < i ==> exists u L_NB {len(u)} :: len(u) == rep(store, cid, v) && distinctSigners(store, cid, msg, sigs[v], v, u)
   loop 1
     invariant i == entry(i) && sigsLen == entry(sigsLen)
-    invariant counter == nv(store, cid, msg, sigs[i], i, $i) && $i <= len(sigs[i])
+    invariant counter == len(signers) && !isnil(signers) && $i <= len(sigs[i]) && distinctSigners(store, cid, msg, sigs[i], i, signers)
   loop 2
-    invariant counter == entry(counter) && i == entry(i)
-    invariant forall t Int {member(store, cid, i, t)} :: 0 <= t && t < $it.pos ==> !ecdsa(msg, member(store, cid, i, t), sig)
+    invariant counter == entry(counter) && i == entry(i) && signers == entry(signers)
 @*/
 
 /*@
